@@ -60,6 +60,9 @@ fn pino_sol_log_data(data: &[&[u8]]) {
 
     #[cfg(not(target_os = "solana"))]
     core::hint::black_box(data);
+
+    #[cfg(feature = "verif")]
+    crate::verif_hooks::record_pino_event(data);
 }
 
 impl Event<'_> {
